@@ -144,6 +144,9 @@ Proof. exact ctc_tracklets_iff. Qed.
 Print Assumptions C15_tracklets_validator.
 
 (* ---- segmentation target ---- *)
+(* NOTE (audit): the two statements below are about model functions only (relpath / resolve; seg_shape unfolded) and do not
+   mention the conversion; they are kept as lemmas.  The statements connected to the conversion are C15_extras / C15_observed
+   at the end of this file. *)
 (* the recorded related-object path, resolved against the geff directory, is the segmentation path
    (for absolute normalised paths: no "." / ".." components in the target) *)
 Theorem C15_related_path : forall path start, plain path -> resolve start (relpath path start) = path.
@@ -241,3 +244,99 @@ Theorem C15_tracklets_full_validator : forall d es, consistent d -> graph_edges 
   (TracksCyc.validate_tracklets es (labelled (nodes_of (d_frames d))) = Ok (true, []) <-> no_single_child (table_of d)).
 Proof. exact CtcCycLemmas.ctc_full_validator_iff. Qed.
 Print Assumptions C15_tracklets_full_validator.
+
+(* ---- appended (fx16): the premise is decidable; occupied target with overwrite=True; the recorded extras about the conversion ---- *)
+From Geff Require CrashLemmas OverwriteLemmas ConvOverwrite CtcDecide CtcObserved.
+From Geff.Corr Require C15.
+
+(* `consistent` is decidable; the harness evaluates consistentb on every generated dataset and compares it with its own
+   predicate consistent() (the gate of the oracle), in both directions (Corr/C15.v, IConvW) *)
+Theorem C15_consistent_decidable : forall d, CtcDecide.consistentb d = true <-> consistent d.
+Proof. exact CtcDecide.consistentb_iff. Qed.
+Print Assumptions C15_consistent_decidable.
+
+(* overwrite=True on a target that holds exactly a geff (whatever geff: `a`, `ch` are arbitrary beyond that): the conversion
+   succeeds and leaves the very tree that the conversion onto a free target leaves -- nothing of the old geff survives -- which
+   passes structural validation, reads back as the converted graph and passes graph validation.  (C15_valid is the free target.) *)
+Theorem C15_overwrite : forall d a ch, consistent d -> d_overwrite d = true -> ConvOverwrite.only_geff a ch ->
+  let ns := nodes_of (d_frames d) in
+  exists es md' tr post,
+    graph_edges ns (table_of d) = Ok es /\
+    final_metadata (ctc_wgraph (d_is3d d) ns es) (ctc_md (d_is3d d)) = Ok md' /\
+    from_ctc_to_geff d (init (Some (ZG a ch))) = (mkst (Some post) tr, Ok tt) /\
+    (exists tr', from_ctc_to_geff d (init None) = (mkst (Some post) tr', Ok tt)) /\
+    validate_structure KPath (Some post) = Ok tt /\
+    read_to_memory KPath (Some post) true None None =
+      Ok (mkmg md' (mkarr DU64 [length ns] (map n_id ns)) (mkarr DU64 [length es; 2%nat] (flat_edges es))
+               (ctc_props (d_is3d d) ns) []) /\
+    graph_check true (map n_id ns) es = None.
+Proof. exact CtcDecide.ctc_overwrite. Qed.
+Print Assumptions C15_overwrite.
+
+(* ... and when the directory holds other members beside the geff: the old geff is deleted, write_arrays(overwrite=False) refuses
+   the directory that is left (the path case of the open C06 finding, reached through the converter; the harness assumes a
+   target that holds exactly a geff, so this statement is about the model only) *)
+Theorem C15_overwrite_beside : forall d a ch, consistent d -> d_overwrite d = true -> ahas "geff" a = true ->
+  adel path_EDGES (adel path_NODES ch) <> [] ->
+  exists tr, from_ctc_to_geff d (init (Some (ZG a ch)))
+             = (mkst (Some (ZG (adel "geff" a) (adel path_EDGES (adel path_NODES ch)))) tr, Err FileExistsError).
+Proof. exact CtcDecide.ctc_overwrite_beside. Qed.
+Print Assumptions C15_overwrite_beside.
+
+(* what the conversion records beside the graph (`extra_of d` is the second component of the observation of Corr/C15.v):
+   the declared tracklet property is the stored tracklet_id column, which holds the labels; the related object is recorded
+   exactly for a target with a path, keyed by that column, and its recorded relative path resolves (os.path.normpath(join))
+   against the geff directory to the target; the exported volume has the frames stacked along a new leading axis (5-D with
+   tczyx).  The shape clauses unfold `seg_shape` (their content is the tie of that function to the array on disk, Corr/C15.v
+   x_seg_shape + the oracle's comparison with the stacked frames); the path clause is relpath_resolves applied to the
+   recorded object. *)
+Theorem C15_extras : forall d, consistent d ->
+  let ns := nodes_of (d_frames d) in
+  let x := extra_of d in
+  x_tracklet x = Some "tracklet_id" /\
+  (forall g md, convert d = Ok (g, md) ->
+     exists ps, w_nprops g = Some ps /\ alookup "tracklet_id" ps = Some (col DI64 n_lab ns)) /\
+  (d_seg d = SegNone -> x_related x = [] /\ x_seg_shape x = None) /\
+  (forall p, d_seg d = SegPath p \/ d_seg d = SegStore (Some p) ->
+     exists r, x_related x = [("labels", r, Some "tracklet_id")] /\ (plain p -> resolve (d_geff d) r = p)) /\
+  (d_seg d = SegStore None -> x_related x = []) /\
+  (seg_requested d = true ->
+     exists sh, x_seg_shape x = Some sh /\ hd_error sh = Some (length (d_frames d)) /\
+       (d_tczyx d = false -> sh = length (d_frames d) :: d_fshape d) /\
+       (d_tczyx d = true -> (length (d_fshape d) <= 4)%nat ->
+          sh = length (d_frames d) :: repeat 1%nat (4 - length (d_fshape d)) ++ d_fshape d /\ length sh = 5%nat)).
+Proof. exact CtcDecide.ctc_extras. Qed.
+Print Assumptions C15_extras.
+
+(* the function the correspondence evaluates, on a consistent dataset and a free target / a target holding exactly a geff
+   with overwrite=True: a success whose observation is the converted graph read back and `extra_of d` *)
+Theorem C15_observed : forall d pre, consistent d -> CtcObserved.target_ok d pre ->
+  let ns := nodes_of (d_frames d) in
+  exists es md',
+    graph_edges ns (table_of d) = Ok es /\
+    final_metadata (ctc_wgraph (d_is3d d) ns es) (ctc_md (d_is3d d)) = Ok md' /\
+    C15.model (C15.IConv d pre)
+    = C15.OOk (Ok (mkmg md' (mkarr DU64 [length ns] (map n_id ns)) (mkarr DU64 [length es; 2%nat] (flat_edges es))
+                        (ctc_props (d_is3d d) ns) []))
+              (extra_of d).
+Proof. exact CtcObserved.ctc_observed. Qed.
+Print Assumptions C15_observed.
+
+(* non-vacuity: ex_div (3-D, division, gap, Path target) with overwrite=True, converted over the geff that ex_single left *)
+Definition ex_div_ow : ctc :=
+  mkctc true (d_table ex_div) true (d_fshape ex_div) (d_frames ex_div) (d_geff ex_div) (d_seg ex_div) true true true.
+Example C15_overwrite_nonvacuous :
+  CtcDecide.consistentb ex_div = true /\ CtcDecide.consistentb ex_div_ow = true /\ CtcDecide.consistentb ex_single = true /\
+  CtcDecide.consistentb (mkctc true (Some [mkrow 1 0 0 0; mkrow 2 1 1 3]) false [4%nat; 4%nat] (d_frames ex_single) ["o"] SegNone false false false) = false /\
+  match run (from_ctc_to_geff ex_single) None with
+  | (Some (ZG a ch), Ok _) =>
+      ahas "geff" a && (match adel path_EDGES (adel path_NODES ch) with [] => true | _ => false end) &&
+      otree_eqb (fst (run (from_ctc_to_geff ex_div_ow) (Some (ZG a ch)))) (fst (run (from_ctc_to_geff ex_div_ow) None)) &&
+      is_ok (snd (run (from_ctc_to_geff ex_div_ow) (Some (ZG a ch)))) &&
+      negb (otree_eqb (fst (run (from_ctc_to_geff ex_div_ow) None)) (Some (ZG a ch)))
+  | _ => false
+  end = true /\
+  x_related (extra_of ex_div_ow) = [("labels", [".."; "seg"], Some "tracklet_id")] /\
+  resolve (d_geff ex_div_ow) [".."; "seg"] = ["data"; "x.zarr"; "seg"] /\
+  x_seg_shape (extra_of ex_div_ow) = Some [3; 1; 3; 6; 6]%nat.
+Proof. vm_compute. repeat split. Qed.
